@@ -68,7 +68,7 @@ CasesC15 == {[base |-> Base15, target |-> t] : t \in Targets15}
             \cup {[base |-> t, target |-> Base15] : t \in Edits(Base15) \cup KindEdits(Base15)}
 
 Unrelated == Mk2("q", I("1"), "l", L(<<S("u")>>))
-Pool16 == {Base15, Unrelated} \cup {t \in Edits(Base15) : TRUE}
+Pool16 == {Base15, Unrelated} \cup Edits(Base15) \cup KindEdits(Base15)
 CasesC16 == {[inputs |-> <<x, y>>] : x \in Pool16, y \in Pool16}
             \cup (IF Bound >= 2 THEN {[inputs |-> <<Base15, x, y>>] : x \in Edits(Base15), y \in {Put(Base15, "a", I("2")), Del(Base15, "a"), SetM(Base15, "y", L(<<I("2"), I("1")>>)), Unrelated}} ELSE {})
 
